@@ -437,6 +437,21 @@ pub open spec fn dec_signed(s: Seq<u8>) -> Option<int> {
     if s.len() > 0 && s[0] == 0x2d { match dec_digits(s.subrange(1, s.len() as int)) { Some(v) => Some(-(v as int)), None => None } }
     else { dec_unsigned(s) }
 }
+/// 7.3.3 + Annex C (Table C.1: the range of integers is an architectural limit of the reader, not part of the syntax): a token made of an
+/// optional sign and decimal digits denotes the number it spells -- an Integer if that number fits the implementation's integer type
+/// (i32), else the SAME number as a real (the literal; its value is f32_of(literal), as for every real).  It is never "not a number".
+pub open spec fn int_tok_val(w: Seq<u8>) -> Option<Val> {
+    match dec_signed(w) {
+        Some(v) => if i32::MIN <= v <= i32::MAX { Some(Val::Int(v)) } else { Some(Val::Real(w)) },
+        None => None,
+    }
+}
+/// an integer literal (7.3.3) is also a real literal in the ISO-exact reading (`[+-]?d+`)
+pub proof fn lemma_int_is_real_iso(s: Seq<u8>)
+    ensures is_int_lit(s) ==> is_real_iso(s)
+{
+    if is_int_lit(s) { let t = s.subrange(sign_len(s), s.len() as int); assert(all_digits(t) && t.len() > 0); }
+}
 /// the f32 that `str::parse::<f32>()` yields (uninterpreted; None = parse error)
 pub uninterp spec fn f32_of(s: Seq<u8>) -> Option<f32>;
 /// trusted (std): the grammar of `f32::from_str` contains the ISO 7.3.3 reals `[+-]?(d+ | d+.d* | .d+)`
@@ -1008,7 +1023,7 @@ pub open spec fn obj_at<R: Resolve>(r: &R, e: Env, p: int, d: nat) -> Option<(Va
             match ref_tail(e.buf, t1.1) {
                 Some(t3) => match (<u64 as FromDec>::dec(w), <u64 as FromDec>::dec(e.buf.subrange(t3.0, t3.1))) {
                     (Some(id), Some(gen)) => Some((Val::Ref(id as int, gen as int), t3.2)), _ => None },
-                None => match <i32 as FromDec>::dec(w) { Some(v) => Some((Val::Int(v as int), t1.1)), None => None },
+                None => match int_tok_val(w) { Some(v) => Some((v, t1.1)), None => None },
             } }
         else if is_real_iso(w) { Some((Val::Real(w), t1.1)) }     // 7.3.3 real
         else if w.len() > 0 && w[0] == 47 {                        // 7.3.5 name
@@ -1047,7 +1062,7 @@ pub open spec fn obj_def<R: Resolve>(r: &R, e: Env, p: int, d: nat) -> Option<(V
             match ref_tail(e.buf, t1.1) {
                 Some(t3) => match (<u64 as FromDec>::dec(w), <u64 as FromDec>::dec(e.buf.subrange(t3.0, t3.1))) {
                     (Some(id), Some(gen)) => Some((Val::Ref(id as int, gen as int), t3.2)), _ => None },
-                None => match <i32 as FromDec>::dec(w) { Some(v) => Some((Val::Int(v as int), t1.1)), None => None },
+                None => match int_tok_val(w) { Some(v) => Some((v, t1.1)), None => None },
             } }
         else if is_real_iso(w) { Some((Val::Real(w), t1.1)) }     // 7.3.3 real
         else if w.len() > 0 && w[0] == 47 {                        // 7.3.5 name
@@ -1162,7 +1177,11 @@ pub proof fn lemma_name_allowed(n: Seq<u8>)
 /// DICT, the STREAM bit is only consulted by Storage::resolve_ref)
 pub open spec fn kind_bits(v: Val) -> u16 {
     match v {
-        Val::Null => 256, Val::Bool(_) => 128, Val::Int(_) => 1, Val::Real(_) => 8, Val::Str(_) => 64, Val::Name(_) => 16,
+        Val::Null => 256, Val::Bool(_) => 128, Val::Int(_) => 1,
+        // the flags classify by the syntactic kind of the token: an integer token is admitted by INTEGER whatever its magnitude
+        // (as `5` was never admitted by NUMBER alone), a token with a decimal point by NUMBER
+        Val::Real(w) => if is_int_lit(w) { 1 } else { 8 },
+        Val::Str(_) => 64, Val::Name(_) => 16,
         Val::Arr(_) => 32, Val::Dict(_) => 4, Val::Ref(_, _) => 512, Val::Stream(_, _, _, _) => 4,
     }
 }
@@ -1229,6 +1248,7 @@ impl Primitive {
 impl<'a> Context<'a> {
 //@@ Context::decrypt
 }
+//@@ integer_or_real
 //@@ check
 //@@ parse_with_lexer_ctx
 //@@ _parse_with_lexer_ctx
